@@ -363,6 +363,14 @@ func (g *Gen) Next() Action {
 			r.Quads = append(r.Quads, [6]float32{float32(3*(n%8) - 9), 0, float32(3*(n/8) - 9), 1, 0, 1})
 			n++
 		}
+		// a sample the server refuses (not finite, negative extents) in the same
+		// message, before or between the others: it is skipped, the others count
+		if g.R.Intn(4) == 0 && len(r.Quads) > 0 {
+			nan := float32(math.NaN())
+			bad := [][6]float32{{nan, 0, 0, 1, 0, 1}, {0, 0, float32(math.Inf(1)), 1, 0, 1}, {1, 0, 1, -1, 0, 1}, {1, 0, 1, 1, 0, nan}}[g.R.Intn(4)]
+			at := g.R.Intn(len(r.Quads))
+			r.Quads = append(r.Quads[:at], append([][6]float32{bad}, r.Quads[at:]...)...)
+		}
 	case "dz_info":
 	case "dz_region":
 		r.Min, r.Max = [3]float32{-100, 0, -100}, [3]float32{100, 0, 100}
